@@ -220,7 +220,7 @@ def wild_to_re(p):
     return re.compile('(?s)\\A' + ''.join(out) + '\\Z')
 
 
-WORDS = st.text(st.sampled_from('abAB[]!-.x1 '), min_size=1, max_size=5)
+WORDS = st.text(st.sampled_from('abAB[]!-.x1 ~'), min_size=1, max_size=5)       # (a tilde is a character like any other: only * and ? are wildcards)
 
 
 @st.composite
@@ -279,6 +279,9 @@ def check_match(case):
         f = 'MATCH(%s,%s)' % (X, A)
     else:
         f = 'MATCH(%s,%s,%s)' % (X, A, lit(t))
+    if kind.startswith('text') and len(x) % 2 == 0:
+        # the same process has just used the same text as a criterion (criteria compare with the case of the letters, MATCH without: whatever the two share must not remember which)
+        outcome('COUNTIF(%s,%s)' % (A, X), kw)
     res = outcome(f, kw)
     g = res['result']
     desc = 'MATCH(%r, %r, %d)' % (x, arr, t)
